@@ -519,6 +519,74 @@ fn main() {
         // configuration: same endpoint, TSI, TOI, FDT instance id, OTI and length, other bytes, no MD5. What the first
         // session left behind must not leak into the second: a complete writer holds exactly one version.
         let n_rs = ctx.tier.pick(400usize, 30_000);
+        // ---- RaptorQ with 65 535 repair symbols per block: encoding symbol ids above 2^16 (the ESI field is 24 bits wide).
+        // The receiver gets the FDT, the repair symbols with ESI >= 65 536 in random order, then a few other symbols
+        let n_hi = ctx.tier.pick(6usize, 60);
+        gens.push(Gen::new("esi_above_16_bits", n_hi, move |ctx, i| {
+            let mut rng = Rng::keyed(ctx.seed, "C03hi", 0, i as u64);
+            let mut cr = CaseResult::default();
+            let mut oti = OtiSpec::new(Fec::RaptorQ, 16, 64, 65535);
+            oti.inband_fti = i % 2 == 0;
+            let len = rng.range(180, 1000) as usize;
+            let mut spec = SenderSpec::new(OtiSpec::new(Fec::NoCode, 4096, 8, 0));
+            spec.fdt_carousel = CarouselSpec::DelayMs(3_600_000);
+            let mut o = ObjSpec::new(rng.bytes(len), "file:///hi/o.bin");
+            o.oti = Some(oti.clone());
+            o.md5 = i % 3 == 0;
+            let em = match emit(&spec, &[o], &EmitOpts { step_ms: 10, max_instants: 30, max_packets: 70_000, ..Default::default() }) {
+                Ok(e) => e,
+                Err(e) => {
+                    cr.inconclusive = Some(e);
+                    return cr;
+                }
+            };
+            let toi = match em.tois[0] {
+                Some(t) => t,
+                None => return cr,
+            };
+            let fdt: Vec<usize> = (0..em.stream.len()).filter(|k| em.stream[*k].toi() == 0).collect();
+            let mut high: Vec<usize> = (0..em.stream.len()).filter(|k| em.stream[*k].toi() == toi && em.stream[*k].dec.esi >= 65_536).collect();
+            let low: Vec<usize> = (0..em.stream.len()).filter(|k| em.stream[*k].toi() == toi && em.stream[*k].dec.esi < 65_536).collect();
+            cr.count("symbols_with_esi_above_16_bits_emitted", high.len() as u64);
+            if high.is_empty() {
+                cr.inconclusive = Some("no encoding symbol id above 65535 was emitted".into());
+                return cr;
+            }
+            // (the very last symbol carries the close-object flag: it ends the reception wherever it arrives, which is
+            // not what this workload is about - it is delivered in one case out of four only)
+            if i % 4 != 3 {
+                high.retain(|k| !em.stream[*k].dec.lct.b);
+            }
+            rng.shuffle(&mut high);
+            let mut order = fdt.clone();
+            order.extend(high.iter().copied());
+            // then 2..8 symbols from below: the last source symbols of the block (even cases), or symbols picked anywhere
+            // (source and early repair symbols)
+            let extra = rng.range(3, 10) as usize;
+            let k_src = em.transfer_len[0].unwrap_or(0).div_ceil(16) as u32;
+            for n in 0..extra {
+                if i % 2 == 0 || i % 3 == 1 {
+                    match low.iter().find(|k| em.stream[**k].dec.esi + 1 + n as u32 == k_src) {
+                        Some(k) => order.push(*k),
+                        None => order.push(*rng.pick(&low)),
+                    }
+                } else {
+                    order.push(*rng.pick(&low));
+                }
+            }
+            let pk = stream_pkts(&em, &order);
+            let desc = || json!({"high_esi_symbols": high.len(), "extra": extra, "len": len, "order": order.iter().map(|k| em.stream[*k].dec.esi).collect::<Vec<_>>()});
+            let (nw, nc, st) = deliver_judge(&em, &pk, &RxOpts::default(), "esi_above_16_bits", &desc, &mut cr.violations);
+            cr.count("writers", nw);
+            cr.count("completes", nc);
+            cr.states = st;
+            if nw > 0 {
+                cr.shape = Some(util::fnv(&format!("hi|{}|{}", i, len)));
+            }
+            cr.sample = Some(json!({"len": len, "high_esi_symbols": high.len(), "writers": nw, "completes": nc, "k": k_src, "tail_esis": order.iter().rev().take(10).map(|k| em.stream[*k].dec.esi).collect::<Vec<_>>()}));
+            limit(&mut cr.violations, 2);
+            cr
+        }));
         gens.push(Gen::new("restarted_sender", n_rs, move |ctx, i| {
             let mut rng = Rng::keyed(ctx.seed, "C03rs", 0, i as u64);
             let mut cr = CaseResult::default();
